@@ -16,7 +16,7 @@ SPEC_DIR = "NatBlocks"
 WATCH = ["NoOverlap", "InRange", "Stable", "Attributable"]
 
 # (module, cfg, workers): must pass
-DESIGN_QUICK = [("NatBlocksDesign", "MC_design.cfg", 4), ("NatBlocksAlgo", "MC_algo_fixed.cfg", 4)]
+DESIGN_QUICK = [("NatBlocksDesign", "MC_design.cfg", 2), ("NatBlocksAlgo", "MC_algo_fixed.cfg", 2)]
 DESIGN_THOROUGH = DESIGN_QUICK + [("NatBlocksDesign", "MC_design_2ip.cfg", 8), ("NatBlocksDesign", "MC_design_3subs.cfg", 8),
                                   ("NatBlocksAlgo", "MC_algo_fixed_3thr.cfg", 8)]
 # (module, cfg, invariant TLC must report violated): the design as found in the repository. If TLC stops finding
@@ -37,46 +37,65 @@ def _sig_extra(sig):
     return dict(group_extra=shape, witness_key=shape, ops=sorted(set(sig["ops"]) | {shape}))
 
 
-def _expected_counterexamples(work):
-    out = []
-    for module, cfgfile, inv in EXPECTED_CEX:
-        cfgtxt = open(os.path.join(SPECS, SPEC_DIR, cfgfile)).read()
-        res = run_tlc(os.path.join(SPECS, SPEC_DIR), module, cfgtxt, work, workers=2, timeout=600, name="cex_" + cfgfile[:-4])
-        if ("Invariant %s is violated" % inv) not in res["out"]:
-            raise Infra("design self-test: TLC no longer finds the expected counterexample (%s/%s, invariant %s):\n%s"
-                        % (module, cfgfile, inv, res["out"][-2000:]))
-        steps = re.findall(r"^State \d+: <(\w+)", res["out"], re.M)
-        out.append(dict(module=module, cfg=cfgfile, violated=inv, counterexample_actions=steps[1:] if steps else [],
-                        states=res["distinct"]))
-        log("design self-test %s: %s violated after %d steps (expected)" % (cfgfile, inv, max(0, len(steps) - 1)))
-    return out
+def _one_cex(work, module, cfgfile, inv):
+    cfgtxt = open(os.path.join(SPECS, SPEC_DIR, cfgfile)).read()
+    res = run_tlc(os.path.join(SPECS, SPEC_DIR), module, cfgtxt, work, workers=1, timeout=600, name="cex_" + cfgfile[:-4])
+    if ("Invariant %s is violated" % inv) not in res["out"]:
+        raise Infra("design self-test: TLC no longer finds the expected counterexample (%s/%s, invariant %s):\n%s"
+                    % (module, cfgfile, inv, res["out"][-2000:]))
+    steps = re.findall(r"^State \d+: <(\w+)", res["out"], re.M)
+    log("design self-test %s: %s violated after %d steps (expected)" % (cfgfile, inv, max(0, len(steps) - 1)))
+    return dict(module=module, cfg=cfgfile, violated=inv, counterexample_actions=steps[1:] if steps else [], states=res["distinct"])
+
+
+def _one_design(work, module, cfgfile, workers):
+    cfgtxt = open(os.path.join(SPECS, SPEC_DIR, cfgfile)).read()
+    res = run_tlc(os.path.join(SPECS, SPEC_DIR), module, cfgtxt, work, workers=workers, timeout=1800, name=cfgfile[:-4])
+    if "No error has been found" not in res["out"]:
+        raise Infra("design spec %s/%s did not pass TLC (a specification problem, not a verdict):\n%s" % (module, cfgfile, res["out"][-3000:]))
+    log("design %s/%s: %d distinct states" % (module, cfgfile, res["distinct"]))
+    return dict(module=module, cfg=cfgfile, states=res["distinct"], transitions=res["generated"])
+
+
+def _design_batch(work, tier):
+    """All exhaustive TLC runs on the hand-written specs, side by side (each in its own scratch dir)."""
+    from concurrent.futures import ThreadPoolExecutor
+    design = DESIGN_THOROUGH if tier == "thorough" else DESIGN_QUICK
+    with ThreadPoolExecutor(max_workers=6) as ex:
+        fd = [ex.submit(_one_design, work, m, c, w) for (m, c, w) in design]
+        fc = [ex.submit(_one_cex, work, m, c, i) for (m, c, i) in EXPECTED_CEX]
+        return [f.result() for f in fd], [f.result() for f in fc]
 
 
 def runner(prop, fam, tier, seed, replay=None):
     t0 = time.time()
-    fam = dict(fam, design=DESIGN_THOROUGH if tier == "thorough" else DESIGN_QUICK)
-    cex = []
+    design_stats, cex = [], []
     if not replay:
-        work = workdir(prop + "cex")
+        work = workdir(prop + "design")
         try:
-            cex = _expected_counterexamples(work)
+            design_stats, cex = _design_batch(work, tier)
         except Infra as e:
             print("INFRA-FAILURE property=%s %s" % (prop, str(e)[:3000]), flush=True)
             return 2
         finally:
             cleanup(work)
-    rc = table_check(prop, fam, tier, seed, replay)
-    if rc in (0, 1) and cex:
+    rc = table_check(prop, dict(fam, design=[]), tier, seed, replay)
+    if rc in (0, 1) and not replay:
         p = os.path.join(VERIF, "evidence", prop + ".json")
         try:
             ev = json.load(open(p))
-            ev["coverage"]["design_counterexamples_of_the_code_as_found"] = cex
+            cov = ev["coverage"]
+            cov["design_runs"] = design_stats
+            cov["states"] += sum(d["states"] for d in design_stats)
+            cov["transitions"] += sum(d["transitions"] for d in design_stats)
+            cov["design_counterexamples_of_the_code_as_found"] = cex
             ev["wall_s"] = round(time.time() - t0, 2)
             tmp = p + ".tmp"
             json.dump(ev, open(tmp, "w"), indent=1, sort_keys=True)
             os.replace(tmp, p)
-        except Exception:
-            pass
+        except Exception as e:
+            print("INFRA-FAILURE property=%s cannot complete evidence: %s" % (prop, e), flush=True)
+            return 2
     return rc
 
 
